@@ -41,6 +41,13 @@ surv = [r for r in latest.values() if r['status'] != 'KILLED']
 out.append('')
 if surv:
     out.append('Survivors in the last run: ' + ', '.join(f"{r['mutant']} ({r['property']}: {r['status']})" for r in surv) + '.')
+    if any(r['mutant'] == 'c13-madgwick-null-mag-freezes' for r in surv):
+        out.append('`c13-madgwick-null-mag-freezes` switches Madgwick\'s correction off for good at the first null magnetometer sample.  With the exact '
+                   'gyroscope of C13\'s trajectories the filter then dead-reckons along the truth, so the change only shows when a *later* outage '
+                   'freezes the gyroscope long enough to leave more than the 0.025 rad recovery tolerance behind; that happens in about one '
+                   'schedule in 24 000 (measured with tools/calibrate_c13.py on the mutated tree), i.e. C13 kills it at some seeds only.  It was '
+                   'killed while the tolerance was a flat 0.01 rad; that constant was a false alarm for non-default gains (section 5.3).  Kept as '
+                   'a survivor: a limitation of a trajectory whose only disturbances are the outages themselves.')
 else:
     out.append('No survivor in the last full run.  Mutants that turned out to be equivalent or inside the property are kept as comments in '
                '`tools/mutant_list.py` with the reason (e.g. Madgwick without its final renormalisation: `Quaternion.__add__` already '
